@@ -821,8 +821,52 @@ def rule_cache_key(ctx, ix):
         ctx.ok("C15.cache-key", "compile/_tensor_method.py:TensorMethod.__init__:free variables")
 
 
+def rule_cli_names(ctx, ix):
+    """The CLI names tensors in `-f NAME:FORMAT`; the library takes them from the assignment.  Every tensor name the
+    assignment grammar accepts must be accepted by the named-format grammar, otherwise there are requests the library
+    answers and the CLI cannot express.  Decided on the two interpreted grammars over every string of length <= 3 from an
+    alphabet with two members of each character class the identifier rules can distinguish."""
+    import itertools
+
+    from .grammar import Grammar
+    from .parsing import FP_MOD, P_MOD, module_env
+
+    key = "cli.py:tensora:tensor names of the assignment are expressible in -f NAME:FORMAT"
+    ctx.instance("C15.cli-dataflow")
+    try:
+        cons = {k: (lambda *a, _k=k: (_k, *a)) for k in ("Tensor", "Integer", "Float", "Add", "Subtract", "Multiply", "Assignment")}
+        cons.update(int=int, float=float)
+        g = Grammar(ix, P_MOD, "TensorExpressionParsers", cons, extra_globals={k: v for k, v in module_env(ix, P_MOD, cons).items() if k not in cons and k != "re"})
+        fcons = {"Format": lambda modes, ordering: ("Format", tuple(modes), tuple(ordering)), "int": int}
+        fg = Grammar(ix, FP_MOD, "FormatParsers", fcons, extra_globals={k: v for k, v in module_env(ix, FP_MOD, fcons).items() if k not in fcons and k != "re"})
+        missing = []
+        n_names = 0
+        for n in (1, 2, 3):
+            for chars in itertools.product("azAZ09_", repeat=n):
+                name = "".join(chars)
+                if g.parse("assignment", f"{name}() = 1")[0] != "ok":
+                    continue
+                n_names += 1
+                if fg.parse("named_format", f"{name}:")[0] != "ok":
+                    missing.append(name)
+        if n_names < 20:
+            raise S_Unint(f"only {n_names} candidate names are accepted by the assignment grammar")
+    except Exception as ex:  # noqa: BLE001
+        ctx.fail("C15.cli-dataflow", key, f"grammars not interpretable: {type(ex).__name__}: {ex}")
+        return
+    if missing:
+        ctx.fail("C15.cli-dataflow", key, f"the assignment grammar accepts tensor names the named-format grammar rejects, e.g. {missing[:4]}: the CLI cannot give these tensors a format while the library can")
+    else:
+        ctx.ok("C15.cli-dataflow", key)
+
+
+class S_Unint(Exception):
+    pass
+
+
 def rule_cli_dataflow(ctx, ix):
     ctx.rule("C15.cli-dataflow", "the CLI prints exactly the text the library returns for the same request", min_instances=4)
+    rule_cli_names(ctx, ix)
     f = ix.func("tensora.cli.tensora").node
 
     def payload_var(callee):
